@@ -220,6 +220,14 @@ theorem C13_vm_run_end_not_goErr (fuel : Nat) (prog : List Term) (query : Term) 
     split at heq <;> first | cases heq | skip
     rfl
 
+/-- "ends `.cancelled` or after FEWER than `c` polls" would be false: a run may end on its own in the
+    iteration that follows the `c`-th successful poll (counter = c, outcome `.yes`) -/
+theorem C13_vm_naive_formulation_false :
+    ∃ (r : Promise.Res Err) (m' : MS),
+      force (VM.sem 1) (some 1) 2 [okP] { user := { cancelAt := some 1 } } = some (r, m') ∧
+      r ≠ .cancelled ∧ ¬ m'.iter < 1 :=
+  Ex.naive_formulation_false
+
 /-- the worked run: `\+ repeat` under a context cancelled at poll 2 — the nested trampoline is
     cancelled at its second poll, the thunk returns "context canceled", the outer trampoline returns
     `.cancelled`, 2 polls in total -/
